@@ -199,6 +199,7 @@ def run(cfg):
     window_rule(R, lib, zs)
     reserved_slot_rule(R, lib)
     selector_rule(R, zs)
+    finder_rule(R, zs)
     return R
 
 
@@ -287,6 +288,77 @@ def selector_rule(R, zs):
                     'candidates with match statuses %s (sorted by time; status -1 before the match, 0 on its start, 1 inside, 2 after): the basic selector '
                     'gives %s, the in-place selector %s  [(candidate, final transition time); %d = match start]; %d of %d lists differ: the result '
                     'depends on the in_place_transitions option' % (list(st), _fmt_sel(a), _fmt_sel(b), START, len(diffs), n))
+
+
+def finder_rule(R, zs):
+    """CandidateFinderBasic and CandidateFinderOptimized feed the same selector: the transitions finally selected must not
+    depend on which finder produced the candidates.  Both pipelines (finder, then ActiveSelectorInPlace) are interpreted
+    through their IR on a family of small policies (one or two recurring rules, FROM/TO years 0..3, months 3/10, wall-clock
+    suffix) and of match intervals clipped the way init_for_year clips them around year 2.  Only the calendar resolution
+    of a rule's day (calc_day_of_month, decided by C18) and the Transition constructor are abstracted."""
+    from .aeval import AEval, AObj, Raised
+    from collections import namedtuple
+    import itertools
+    thorough = R.cfg.tier == 'thorough'
+    R.rule('R6', 'CandidateFinderBasic and CandidateFinderOptimized lead to the same selected transitions on every small policy and match interval', floor=500)
+    DT = namedtuple('DateTuple', 'y M d ss f')
+
+    def mk_transition(ev, recv, args):
+        m = args[0]
+        o = AObj(dict(m.attrs), cls='Transition')
+        for k in ('transitionTime', 'transitionTimeS', 'transitionTimeU', 'originalTransitionTime', 'zoneRule', 'isActive',
+                  'startEpochSecond', 'abbrev', 'untilDateTimeOfTransition', 'startDateTimeOfTransition'):
+            o.attrs.setdefault(k, None)
+        return o
+
+    def upd(ev, recv, args):
+        recv.attrs.update(args[0])
+        if 'transitionTime' in args[0]:
+            recv.oid = '%s@%d' % (args[0]['zoneRule'].oid, args[0]['transitionTime'].y)
+
+    def gtt(ev, recv, args):
+        year, rule = args
+        return DT(year, rule.attrs['inMonth'], rule.attrs['onDayOfMonth'], rule.attrs['atSeconds'], 'w')
+    intr = {'Transition': mk_transition, 'update': upd, '_get_transition_time': gtt,
+            'logging.info': lambda ev, r, a: None, 'info': lambda ev, r, a: None}
+    years = range(0, 4)
+    months = (3, 10, 12) if not thorough else (1, 2, 3, 10, 11, 12)
+    shapes = [(f, t, m) for f in years for t in years if f <= t for m in months]
+    rules1 = [(s,) for s in shapes]
+    rules2 = [p for p in itertools.combinations(shapes, 2) if p[0][2] != p[1][2]]
+    starts = [(1, 12, 1), (2, 1, 1), (2, 3, 1), (2, 3, 10), (2, 10, 1)]
+    untils = [(2, 3, 1), (2, 3, 10), (2, 10, 1), (3, 1, 1), (3, 2, 1)]
+    matches = [(s, u) for s in starts for u in untils if s < u]
+    loc = zs.fn('CandidateFinderOptimized.find_candidate_transitions').loc
+
+    def pipeline(cls, pol, mt):
+        rules = [AObj({'fromYear': f, 'toYear': t, 'inMonth': m, 'onDayOfWeek': 0, 'onDayOfMonth': 1, 'atSeconds': 0, 'atTimeSuffix': 'w'},
+                      oid='r%d' % i, cls='ZoneRuleCooked') for i, (f, t, m) in enumerate(pol)]
+        match = AObj({'startDateTime': DT(mt[0][0], mt[0][1], mt[0][2], 0, 'w'), 'untilDateTime': DT(mt[1][0], mt[1][1], mt[1][2], 0, 'w'), 'zoneEra': None},
+                     oid='match', cls='ZoneMatch')
+        ev = AEval(module=zs, intrinsics=intr)
+        try:
+            cands = ev.call_function(cls + '.find_candidate_transitions', [match, rules], recv=AObj({'debug': False}, cls=cls))
+            out = ev.call_function('ActiveSelectorInPlace.select_active_transitions', [cands, match], recv=AObj({'debug': False}, cls='ActiveSelectorInPlace'))
+        except Raised as r:
+            return ('raise', r.what[:60])
+        return ('ok', tuple(sorted((o.oid, tuple(o.attrs['transitionTime'])[:3]) for o in out)))
+    n = 0
+    diffs = []
+    for pol in rules1 + rules2:
+        for mt in matches:
+            n += 1
+            a = pipeline('CandidateFinderBasic', pol, mt)
+            b = pipeline('CandidateFinderOptimized', pol, mt)
+            if a != b:
+                diffs.append((pol, mt, a, b))
+    R.instance('R6', 'CandidateFinderBasic~CandidateFinderOptimized', loc, '%d (policy, match) pairs' % n, n=n)
+    R.note('finder equivalence: %d (policy, match) pairs interpreted through both pipelines' % n)
+    if diffs:
+        pol, mt, a, b = diffs[0]
+        R.violation('R6', 'CandidateFinderBasic~CandidateFinderOptimized', loc,
+                    'policy %s (FROM, TO, month) with match [%s, %s): the basic finder leads to %s, the optimized finder to %s; %d of %d cases differ: '
+                    'the result depends on the optimize_candidates option' % (list(pol), mt[0], mt[1], _fmt_sel(a), _fmt_sel(b), len(diffs), n))
 
 
 def _fmt_sel(x):
@@ -771,6 +843,20 @@ SELFTEST = [
     dict(id='python-inplace-selector-elif-order-silent', file='tools/zonedb/zone_specifier.py',
          find='        if transition_compared_to_match == 2:\n            transition.isActive = False\n        elif transition_compared_to_match == 1:\n            transition.isActive = True\n        elif transition_compared_to_match == 0:',
          replace='        if transition_compared_to_match == 1:\n            transition.isActive = True\n        elif transition_compared_to_match == 2:\n            transition.isActive = False\n        elif transition_compared_to_match == 0:', expect='silent'),
+    dict(id='python-optimized-finder-keeps-earliest-prior', file='tools/zonedb/zone_specifier.py',
+         find='            if transition.transitionTime > prior_transition.transitionTime:\n                return transition\n            else:\n                return prior_transition',
+         replace='            if transition.transitionTime < prior_transition.transitionTime:\n                return transition\n            else:\n                return prior_transition', rule='R6'),
+    dict(id='python-optimized-finder-forgets-prior-year', file='tools/zonedb/zone_specifier.py',
+         find='            if prior_year >= 0:\n                transition = _create_transition_for_year(\n                    prior_year, rule, match)',
+         replace='            if prior_year > 0:\n                transition = _create_transition_for_year(\n                    prior_year, rule, match)', rule='R6'),
+    dict(id='python-optimized-finder-drops-fuzzy-prior', file='tools/zonedb/zone_specifier.py',
+         find='                if comp < 0:\n                    prior_transition = self._calc_prior_transition(\n                        prior_transition, transition)\n                elif comp == 1:',
+         replace='                if comp < 0:\n                    pass\n                elif comp == 1:', rule='R6'),
+    dict(id='python-basic-finder-end-year', file='tools/zonedb/zone_specifier.py', unique=False, nth=0,
+         find='        if until.M == 1 and until.d == 1 and until.ss == 0:\n            end_y = until.y - 1\n        else:\n            end_y = until.y',
+         replace='        if until.M == 1 and until.d == 1 and until.ss == 0:\n            end_y = until.y - 2\n        else:\n            end_y = until.y', rule='R6'),
+    dict(id='python-optimized-finder-keeps-far-future-silent', file='tools/zonedb/zone_specifier.py',
+         find='                elif comp == 1:\n                    _add_transition_sorted(transitions, transition)', replace='                elif comp >= 1:\n                    _add_transition_sorted(transitions, transition)', expect='silent'),
     dict(id='cpp-reserved-prior-not-cleared', file='src/ace_time/ExtendedZoneProcessor.h',
          find='      (*prior)->active = false; // indicates "no prior transition"\n', replace='', rule='R4'),
     dict(id='cpp-reserved-prior-cleared-inside-loop', file='src/ace_time/ExtendedZoneProcessor.h', regex=True,
